@@ -97,8 +97,8 @@ pub fn jaxable(f: &mut FactSet) {
 
 pub fn construct(f: &FactSet, path: PathKind, rng: &mut Rng, tag: &str) -> Built {
     match path {
-        PathKind::BuilderMinimal => drive::via_builder(f, Some(rng), false),
-        PathKind::BuilderDefaults => drive::via_builder(f, Some(rng), true),
+        PathKind::BuilderMinimal => drive::via_builder_opts(f, Some(rng), false, true),
+        PathKind::BuilderDefaults => drive::via_builder_opts(f, Some(rng), true, true),
         PathKind::BytesV1 => drive::via_bytes_variant(f, 1, rng).1,
         PathKind::BytesV2 => drive::via_bytes_variant(f, 2, rng).1,
         PathKind::BytesV3 => drive::via_bytes_variant(f, 3, rng).1,
